@@ -930,20 +930,20 @@ func (x Expr) set(data, value any, fun string, one bool) error {
 						}
 						if 0 <= i && i < len(tv) {
 							v = tv[i]
-						}
-						if int(fi) == len(x)-1 { // last one
-							if value == delFlag {
-								tv[i] = nil
+							if int(fi) == len(x)-1 { // last one
+								if value == delFlag {
+									tv[i] = nil
+								} else {
+									tv[i] = nodeValue
+								}
+								if one {
+									return nil
+								}
 							} else {
-								tv[i] = nodeValue
-							}
-							if one {
-								return nil
-							}
-						} else {
-							switch v.(type) {
-							case map[string]any, []any, gen.Object, gen.Array, Keyed, Indexed:
-								stack = append(stack, v)
+								switch v.(type) {
+								case map[string]any, []any, gen.Object, gen.Array, Keyed, Indexed:
+									stack = append(stack, v)
+								}
 							}
 						}
 					default:
